@@ -25,6 +25,8 @@ func main() {
 		os.Exit(cmdSelftest(os.Args[2:]))
 	case "replay":
 		os.Exit(cmdReplay(os.Args[2:]))
+	case "mutate":
+		os.Exit(cmdMutate(os.Args[2:]))
 	default:
 		fmt.Fprintln(os.Stderr, "unknown command", os.Args[1])
 		os.Exit(2)
@@ -64,7 +66,7 @@ func cmdVerify(args []string) {
 	keys := fs.Args()
 	if *sweep != "" {
 		for k := range eng.funcs {
-			if strings.Contains(k, *sweep) && !strings.Contains(k, "$") {
+			if strings.Contains(k, *sweep) && (!strings.Contains(k, "$") || eng.contracts[k] != nil) {
 				keys = append(keys, k)
 			}
 		}
@@ -82,6 +84,9 @@ func cmdVerify(args []string) {
 		key := eng.resolveKey(k)
 		r := safeVerify(eng, key, *timeout)
 		fmt.Printf("== %s  (gen %d ms, solve %d ms, blocks %d/%d, vacuity %s)\n", r.Name, r.GenMS, r.SolveMS, r.Blocks, r.BlocksAll, r.Vacuity)
+		if r.Auto != nil {
+			fmt.Printf("   value function: refuted post-conditions and safety obligations are replayed by a generated driver (%d input leaves)\n", len(r.Auto.Leaves))
+		}
 		for _, e := range r.Errs {
 			fmt.Println("   ERROR:", e)
 		}
